@@ -113,7 +113,16 @@ fn canon_steps(log: &str, env: &Env, upto: usize) -> Vec<String> {
                     }
                 }
             }
-            "fsync" => { if let Some((s, r)) = side_of(&a) { out.push(format!("Sync:{}:{}", s, hex(r.trim_end_matches(".copia-tmp").as_bytes()))); } }
+            "fsync" => {
+                if let Some((s, r)) = side_of(&a) {
+                    // an EMPTY file is delivered without any data call (open, fsync, rename): the model's Data step of that
+                    // copy writes nothing; it is inserted here so that both step lists have the same shape
+                    if r.ends_with(".copia-tmp") && staged_data.insert(format!("{}:{}", s, r)) {
+                        out.push(format!("Data:{}:{}", s, hex(r.trim_end_matches(".copia-tmp").as_bytes())));
+                    }
+                    out.push(format!("Sync:{}:{}", s, hex(r.trim_end_matches(".copia-tmp").as_bytes())));
+                }
+            }
             "rename" => { if let Some((s, r)) = side_of(&b) { out.push(format!("Rename:{}:{}", s, hex(r.as_bytes()))); } }
             "unlink" => { if let Some((s, r)) = side_of(&a) { out.push(format!("Unlink:{}:{}", s, hex(r.as_bytes()))); } }
             _ => {}
